@@ -45,6 +45,34 @@ func runC02(rc *RunCtx) {
 			raw := in.Bytes()
 			return &ct.MsgReceiveMessage{From: from, Message: raw, Attestation: e.Attest(raw, vstyle)}
 		}
+		// used nonces of two source domains that share a nonce value at the boundary between them (in any key order
+		// one of the shared values is the last entry of one domain and next to the first of the other)
+		{
+			var block []rxRecord
+			da, db := []uint32{0, 1, 4}[h%3], []uint32{1, 4, 0xffffffff}[h%3]
+			for _, p := range []struct {
+				d uint32
+				n uint64
+			}{{da, 3}, {da, 7}, {db, 7}, {db, 9}, {da, ^uint64(0)}, {db, 0}, {db, ^uint64(0)}} {
+				in := &InMsg{Version: 0, Src: p.d, Dst: 4, Nonce: p.n, Sender: Structured32(1), Recipient: Structured32(2), Caller: make([]byte, 32), Body: []byte("boundary")}
+				if rep := exec(mkRx(in, Acct(UserIx), 0), "c02 boundary pattern"); rep.OK {
+					block = append(block, rxRecord{*in, Acct(UserIx)})
+				}
+			}
+			if _, _, _, err := e.ExportImport(); err != nil {
+				rc.Cov.Inconclusive("export/import: " + err.Error())
+			}
+			for _, rec := range block {
+				in2 := rec.in
+				rep := exec(mkRx(&in2, Acct(OtherIx), 1), "c02 replay of the boundary pattern after export/import")
+				rc.Cov.Cell("C02_replays", "boundary-after-export-import/"+map[bool]string{true: "SECOND-SUCCESS", false: "rejected"}[rep.OK])
+				if rep.OK {
+					e.viol([]string{"C02"}, "exactly-once", "C02:second-success:boundary-after-export-import",
+						fmt.Sprintf("a second receive succeeded for (%d,%d) after export/import", in2.Src, in2.Nonce), nil)
+				}
+			}
+			done = append(done, block...)
+		}
 		nonces := append([]uint64{0, 1, 255, 256, 0xffffffff, 0x100000000, 1 << 63, ^uint64(0)}, 7, 8, 9, 10, 11, 12, 13, 14, 15, 16, 17, 18, 19, 20, 21, 22, 23, 24)
 		steps := rc.Pick(260, 900)
 		for i := 0; i < steps; i++ {
